@@ -20,8 +20,8 @@ Definition pdag_complete_code_refuted_stmt : Prop :=
 Definition roundtrip_equiv_stmt : Prop := forall d ord, is_dag d -> topo d ord ->
   exists cg d', cpdag_graph d ord = Some cg /\ pdag_model cg = Some d' /\ consistent_ext cg d' /\ meq d d'.
 
-(* both consequences incl. the fixpoint pdag_to_cpdag (cpdag d) = cpdag d: FULL statement; the fixpoint part needs Chickering's
-   theorem for dag_to_cpdag and is proved for n<=5 only (C05/Bounded_5.v) *)
+(* both consequences incl. the fixpoint pdag_to_cpdag (cpdag d) = cpdag d, with the model's own order some_topo for the second
+   conversion: PROVED for all sizes (C05/RoundtripAll.v; C05/Fixpoint.v for every order) *)
 Definition roundtrip_stmt (d : mgraph) (ord : list nat) : Prop :=
   exists c d', cpdag_graph d ord = Some c /\ pdag_model c = Some d' /\ meq d d' /\
     exists c', cpdag_graph d' (some_topo d') = Some c' /\ graph_eqb c c' = true.
